@@ -438,14 +438,14 @@ pub fn i64_convolution_by_const_1coeff_ref(k: usize, dst: &mut [i64; 8], a: &[i6
 #[allow(dead_code)]
 #[inline(always)]
 pub(crate) fn as_arr_i64<const SIZE: usize>(x: &[i64]) -> &[i64; SIZE] {
-    debug_assert!(x.len() >= SIZE, "x.len():{} < size:{}", x.len(), SIZE);
+    assert!(x.len() >= SIZE, "x.len():{} < size:{}", x.len(), SIZE);
     unsafe { &*(x.as_ptr() as *const [i64; SIZE]) }
 }
 
 #[allow(dead_code)]
 #[inline(always)]
 pub(crate) fn as_arr_i64_mut<const SIZE: usize>(x: &mut [i64]) -> &mut [i64; SIZE] {
-    debug_assert!(x.len() >= SIZE, "x.len():{} < size:{}", x.len(), SIZE);
+    assert!(x.len() >= SIZE, "x.len():{} < size:{}", x.len(), SIZE);
     unsafe { &mut *(x.as_mut_ptr() as *mut [i64; SIZE]) }
 }
 
